@@ -1,8 +1,14 @@
 """C05 bounded stand-in: the control-flow graph built by malt.pyct.cfg contains every control path that
 can execute, and is a well-formed graph.
 
-usage: c05_paths.py <seed> <tier> [--avoid D6,HJF,CBR] [--k K] [--random N] [--xrandom N] [--maxfail N]
+usage: c05_paths.py <seed> <tier> [--avoid auto|D6,HJF,CBR,TEI] [--k K] [--random N] [--xrandom N] [--depth D]
 Prints one JSON line (README.md interface).
+
+Recorded findings have one explicit witness each, reported with kind `known-<tag>` when it still fails
+(D6 `except E as name` crashes cfg.build; HJF a jump inside an except handler skips the finally of the same
+try; CBR `raise` in a class body nested in a function crashes cfg.build; TEI an `if` as first statement of a
+try-else crashes cfg.build).  With --avoid auto (default) the generators avoid exactly the tags whose witness
+still fails, so a repaired defect re-enters the program space.
 
 Oracle (per program, for every graph returned by cfg.build, i.e. every FunctionDef / Lambda):
   * well-formedness: b in a.next <=> a in b.prev, edges only between indexed nodes, the entry is the
